@@ -30,7 +30,7 @@ ENGINES = ['A', 'F']
 FUNCTIONS = ['OperatorDict.__getitem__ / UnaryOperatorDict.__getitem__ / Registry.__getitem__ (membership test before do_codegen/do_compile)',
              'OperatorDict.__call__/_call_binary', 'do_codegen', 'do_compile', 'lambdify', 'func_builder']
 ASSUMPTIONS = ['sequential calls only', 'coefficient kinds: solver terms (stand for every real value), int, float, Fraction, numpy float64 arrays, sympy symbols, all-zero and special values (0, 1, -1, bools, 0.0, numpy scalars); plain-number operands: a solver term and 17 enumerated special values/types']
-BOUNDS = {'quick': '29 operators + a registered function x grade-union / random sparse patterns d<=3 x 6 coefficient kinds x histories of <=7 repeats with other patterns interleaved; long histories (200-400 other patterns); histories with failing evaluations / failing generations; per (operator, pattern) generation count; plain-number operands (a solver term and 17 special numbers / types, either side); nested registered functions',
+BOUNDS = {'quick': '29 operators + a registered function x grade-union / random sparse patterns d<=3 x 6 coefficient kinds x histories of <=7 repeats with other patterns interleaved; long histories (200-400 other patterns); histories with failing evaluations / failing generations; per (operator, pattern) generation count; plain-number operands (a solver term and 17 special numbers / types, either side); nested registered functions; one pattern repeated in one and the same unusual spelling (blade names / range / numpy integers, 4 algebras)',
           'thorough': 'more patterns per operator, 3x longer long-histories'}
 OUTSIDE = ['concurrent first calls (threads)', 'coefficient types not listed']
 OPTS = {'rlimit': 100_000_000, 'canary_every': 0, 'max_paths': 16}
